@@ -12,6 +12,7 @@ from pathlib import Path
 from typing import cast, Callable, Iterable
 
 import flask  # type: ignore
+from sqlalchemy.exc import SQLAlchemyError
 from flask_login import current_user
 from flask_jwt_extended import current_user as jwt_current_user
 from werkzeug.local import LocalProxy  # type: ignore
@@ -19,6 +20,7 @@ from werkzeug.local import LocalProxy  # type: ignore
 from dashlive.mpeg.dash.profiles import primary_profiles
 from dashlive.server.manifests import DashManifest, manifest_map
 from dashlive.server.models import (
+    db,
     Group,
     Key,
     MediaFile,
@@ -30,6 +32,24 @@ from dashlive.server.models import (
 from .csrf import CsrfProtection
 from .exceptions import CsrfFailureException
 from .utils import is_ajax, jsonify, jsonify_no_content
+
+def rejects_malformed_payload(func):
+    """
+    Answers "400 Bad Request" rather than failing with a 500 error when the
+    JSON or form body of a request lacks the fields, or has values of other
+    types, than the handler expects.
+    """
+    @wraps(func)
+    def decorated_function(*args, **kwargs):
+        try:
+            return func(*args, **kwargs)
+        except (AttributeError, KeyError, OverflowError, TypeError, ValueError,
+                SQLAlchemyError) as err:
+            logging.warning('Malformed request payload: %s: %s', type(err).__name__, err)
+            db.session.rollback()
+            return flask.make_response('Malformed request payload', 400)
+    return decorated_function
+
 
 def needs_login_response(admin: bool, html: bool, permission: Group | None) -> flask.Response:
     if is_ajax():
